@@ -1,11 +1,13 @@
 (* Main.v — request dispatcher of the extracted model binary: one s-expression request per line,
    one s-expression answer per line. Definitions only. *)
-From FV Require Import Base AddrRange RouteMap Graph.
+From FV Require Import Base AddrRange RouteMap Graph Netlist.
 
 Definition dispatch (cmd : string) (args : list sx) : res sx :=
   if str_eqb cmd "c17" then handle_c17 args
   else if str_eqb cmd "c16" then handle_c16 args
   else if str_eqb cmd "c18" then handle_c18 args
+  else if str_eqb cmd "nl-echo" then
+    match args with [x] => do n <- sx_netlist x; Ok (x_netlist n) | _ => Err "nl-echo: arity" end
   else Err ("unknown command " +++ cmd).
 
 Definition run_line (line : string) : string :=
